@@ -9,7 +9,7 @@
 From Coq Require Import ZArith QArith Qabs List Bool.
 Import ListNotations.
 Require Import V.Lib.C43_PyPrelude V.Lib.C46_XVal V.gen.Controlling V.gen.Navigating.
-Require Import V.C46.Model V.C46.Proofs.
+Require Import V.C46.Model V.C46.Proofs V.C46.Lapse.
 
 (* the clamp expression min(hi, max(lo, x)) as written in the source lands in [lo, hi] for EVERY x,
    including NaN and the infinities, whenever lo <= hi (which excludes NaN limits) *)
@@ -83,6 +83,41 @@ Theorem small_change_keeps_set_point : forall (N : Num xv) (P : parm) (s : st) (
 Proof. exact step_no_reset. Qed.
 Print Assumptions small_change_keeps_set_point.
 
+(* ---------- end to end, with the time lapse computed by the GENERATED DoerLapse.updateLapse ---------- *)
+(* controller state = (its .stamp : None or number, its .lapse, its shares); one update = the store's
+   stamp (None or number) and the three input shares; full_step = updateLapse ; action. *)
+
+(* the lapse handed to the controller is 0.0 or strictly positive -- never negative, never NaN --
+   and the controller's stamp always follows the store's stamp *)
+Theorem lapse_is_zero_or_positive : forall (N : Num xv) (P : parm) (c : cst) (u : upd),
+  std_cmp N -> vlit N 0%Q = XFin 0%Q ->
+  (lapse_of N c u = XFin 0%Q \/ xlt (XFin 0%Q) (lapse_of N c u) = true) /\
+  c_stamp (full_step N P c u) = u_stamp u.
+Proof. exact (fun N P c u S Z => conj (lapse_sign N c u S Z) (stamp_follows N P c u)). Qed.
+Print Assumptions lapse_is_zero_or_positive.
+
+(* the controller is evaluated exactly when both stamps are numbers and store stamp - controller
+   stamp > 0.0 (a NaN difference, a backward or standing clock, or a None stamp all skip it) *)
+Theorem evaluated_iff_clock_advanced : forall (N : Num xv) (c : cst) (u : upd),
+  std_cmp N -> vlit N 0%Q = XFin 0%Q ->
+  (evaluated N c u = true <->
+   exists a b, u_stamp u = Some a /\ c_stamp c = Some b /\ xlt (XFin 0%Q) (vsub N a b) = true).
+Proof. exact evaluated_iff. Qed.
+Print Assumptions evaluated_iff_clock_advanced.
+
+(* output and error-sum limits over whole update sequences driven by store stamps: they hold at the
+   end of every history that starts within the limits or contains one evaluated update; a skipped
+   update changes no share but `elapsed` *)
+Theorem limits_hold_end_to_end : forall (N : Num xv) (P : parm),
+  std_cmp N -> limits_ordered P ->
+  (forall (us : list upd) (c : cst),
+     in_limits P (c_st c) \/ ever_evaluated N P c us = true -> in_limits P (c_st (full_run N P c us))) /\
+  (forall (c : cst) (u : upd), evaluated N c u = false ->
+     c_st (full_step N P c u) =
+     mkSt (lapse_of N c u) (s_prsp (c_st c)) (s_e (c_st c)) (s_er (c_st c)) (s_es (c_st c)) (s_out (c_st c))).
+Proof. exact (fun N P S O => conj (full_run_limits N P S O) (full_step_skip N P)). Qed.
+Print Assumptions limits_hold_end_to_end.
+
 (* non-vacuity: the exact instance has CPython comparisons; a NaN input ends inside the limits *)
 Example c46_exact_std : std_cmp xnum_exact.
 Proof. exact exact_std. Qed.
@@ -92,4 +127,13 @@ Example c46_nan_input :
   let s := run xnum_exact P (mkSt (XFin 0) (XFin 0) (XFin 0) (XFin 0) (XFin 0) (XFin 0))
                [mkInp (XFin (1#8)) (XFin (45#2)) (XFin 0) (XFin 0); mkInp (XFin (1#8)) XNaN (XFin 0) (XFin 0)] in
   s_es s = XFin (-5) /\ s_out s = XFin (-20) /\ s_e s = XNaN.
+Proof. vm_compute. repeat split. Qed.
+Example c46_first_update_skipped :
+  let P := mkParm (XFin (1#100)) (XFin 0) true (XFin 1) (XFin 0) (XFin 3) (XFin 0) (XFin 1)
+                  (XFin 5) (XFin (-5)) (XFin 20) (XFin (-20)) in
+  let c0 := mkC None (XFin 0) (mkSt (XFin 0) (XFin 0) (XFin 0) (XFin 0) (XFin 0) (XFin 0)) in
+  let u1 := mkU (Some (XFin 0)) (XFin 10) (XFin 0) (XFin 0) in
+  let u2 := mkU (Some (XFin (1#8))) (XFin 10) (XFin 0) (XFin 0) in
+  evaluated xnum_exact c0 u1 = false /\ ever_evaluated xnum_exact P c0 [u1; u2] = true /\
+  s_out (c_st (full_run xnum_exact P c0 [u1; u2])) = XFin 20.
 Proof. vm_compute. repeat split. Qed.
